@@ -3265,3 +3265,633 @@ func c13RefEscape(c *core.Ctx) {
 	}
 	c.Check(show(writer) == show(lexer) && show(writer) == show(reader), "C13.refescape", "ReferenceNode#escape-sets", token.NoPos, "ReferenceNode.Format escapes [%s], lexReference skips [%s] after a backslash, newReference unescapes [%s]: a character escaped by one side only comes back with (or without) its backslash — the formatted script names another field, and formatting never becomes stable", show(writer), show(lexer), show(reader))
 }
+
+// c05GoDecode (F127, class): a goroutine that decodes what a peer sent runs outside the recover of the node that started it.
+// Every `go` statement of the root package whose goroutine reaches, through calls inside the module, a decoder of external
+// input (the InfluxDB client's Query calls, edge.ResultToBufferedBatches) has a deferred function that calls recover()
+// unconditionally.
+func c05GoDecode(c *core.Ctx, root *packages.Package) {
+	c.Rule("C05.godecode", "A9a (call-graph reachability, depth 5): every goroutine started in the root package that reaches one of the project's own decoders of a server's answer — the InfluxDB client's Query/QueryFluxResponse (annotated CSV) and edge.ResultToBufferedBatches, where answers that panicked were shown (F127–F129); the line-protocol parser and encoding/json are not in the set, no input is known that makes them panic — starts with a deferred function whose recover() runs on every path: the goroutine is outside the recover of the node's own goroutine, a panic in it ends the daemon")
+	info := root.TypesInfo
+	isSink := func(f *types.Func) bool {
+		if f == nil || f.Pkg() == nil {
+			return false
+		}
+		pp, nm := f.Pkg().Path(), f.Name()
+		switch {
+		case strings.HasSuffix(pp, "kapacitor/influxdb") && (nm == "Query" || nm == "QueryFluxResponse" || nm == "QueryFlux"):
+			return true
+		case strings.HasSuffix(pp, "kapacitor/edge") && nm == "ResultToBufferedBatches":
+			return true
+		}
+		return false
+	}
+	memo := map[*types.Func]int{} // 0 unknown, 1 reaches, 2 does not
+	var reaches func(f *types.Func, depth int) bool
+	reachesBody := func(pinfo *types.Info, body ast.Node, depth int) bool {
+		hit := false
+		ast.Inspect(body, func(nd ast.Node) bool {
+			if hit {
+				return false
+			}
+			if call, ok := nd.(*ast.CallExpr); ok {
+				if cal := core.Callee(pinfo, call); cal != nil {
+					if isSink(cal) || reaches(cal, depth+1) {
+						hit = true
+					}
+				}
+			}
+			return true
+		})
+		return hit
+	}
+	reaches = func(f *types.Func, depth int) bool {
+		if f == nil || f.Pkg() == nil || depth > 5 || !strings.HasPrefix(f.Pkg().Path(), core.Module) {
+			return false
+		}
+		if m := memo[f]; m != 0 {
+			return m == 1
+		}
+		memo[f] = 2
+		d := declOfFunc(c.P, f)
+		if d == nil || d.Decl.Body == nil {
+			return false
+		}
+		if reachesBody(d.Pkg.TypesInfo, d.Decl.Body, depth) {
+			memo[f] = 1
+			return true
+		}
+		return false
+	}
+	n := 0
+	for _, f := range core.AllFuncs(root) {
+		name := f.Decl.Name.Name
+		if r := core.RecvName(f.Decl); r != "" {
+			name = r + "." + name
+		}
+		k := 0
+		ast.Inspect(f.Decl.Body, func(nd ast.Node) bool {
+			gs, ok := nd.(*ast.GoStmt)
+			if !ok {
+				return true
+			}
+			var body *ast.BlockStmt
+			binfo := info
+			if lit, ok := ast.Unparen(gs.Call.Fun).(*ast.FuncLit); ok {
+				body = lit.Body
+			} else if cal := core.Callee(info, gs.Call); cal != nil {
+				if d := declOfFunc(c.P, cal); d != nil {
+					body, binfo = d.Decl.Body, d.Pkg.TypesInfo
+				}
+			}
+			if body == nil || !reachesBody(binfo, body, 0) {
+				return true
+			}
+			n++
+			k++
+			c.Analysed(f)
+			// a deferred function with an unconditional recover among the top-level statements of the goroutine
+			okRec := false
+			for _, st := range body.List {
+				ds, ok := st.(*ast.DeferStmt)
+				if !ok {
+					continue
+				}
+				var db *ast.BlockStmt
+				dinfo := binfo
+				if lit, ok := ast.Unparen(ds.Call.Fun).(*ast.FuncLit); ok {
+					db = lit.Body
+				} else if cal := core.Callee(binfo, ds.Call); cal != nil {
+					if d := declOfFunc(c.P, cal); d != nil {
+						db, dinfo = d.Decl.Body, d.Pkg.TypesInfo
+					}
+				}
+				if db == nil {
+					continue
+				}
+				if uncond, _ := recoverPlacement(dinfo, db); uncond && !repanics(dinfo, db) {
+					okRec = true
+				}
+			}
+			c.Check(okRec, "C05.godecode", fmt.Sprintf("%s#go%d", name, k), gs.Pos(), "%s starts a goroutine that decodes what a peer sent (it reaches the InfluxDB client or the result decoder) without a deferred unconditional recover(): it runs outside the recover of the node's goroutine, so one answer the decoder cannot index ends the daemon instead of the task", name)
+			return true
+		})
+	}
+	c.Floor("C05.godecode", "goroutines of the root package that reach a decoder", n, 4)
+}
+
+// c05ParallelIndex (F128, F129; class): a decoder that walks one list and indexes another with the same position relies on
+// the peer having sent both with the same length. In the packages that decode what a server sent (edge, influxdb), every
+// B[i] inside `for i := range A` with B another slice than A needs one of: B made with len(A) in the same function; a test
+// that compares len(B) with len(A) (or with i) and leaves — return, continue, break, or an error recorded and return — before
+// the index is used; B an array. Otherwise a short row is an index out of range in a goroutine that decodes answers.
+func c05ParallelIndex(c *core.Ctx) {
+	c.Rule("C05.parallelindex", "A4 (guard provenance): in the decoders of a server's answers (packages edge and influxdb) every index B[i] under `for i := range A`, B not A, is covered by make(…, len(A)) for B in the same function, by a test of len(B) against len(A) or i that leaves before the use, or B is an array: a row, an annotation or a header shorter than its neighbour is an error of that answer, never an index out of range")
+	n := 0
+	for _, rel := range []string{"edge", "influxdb"} {
+		pkg := c.P.Pkg(rel)
+		if pkg == nil {
+			continue
+		}
+		info := pkg.TypesInfo
+		for _, f := range core.AllFuncs(pkg) {
+			name := f.Decl.Name.Name
+			if r := core.RecvName(f.Decl); r != "" {
+				name = r + "." + name
+			}
+			// len facts established by leaving tests anywhere in the function: pairs (x, y) such that a test comparing len(x)
+			// with len(y) — or with anything — leaves
+			type guard struct {
+				pos  token.Pos
+				text string // text of the slice whose len is tested
+				with string // what it is compared with
+			}
+			var guards []guard
+			ast.Inspect(f.Decl.Body, func(nd ast.Node) bool {
+				is, ok := nd.(*ast.IfStmt)
+				if !ok {
+					return true
+				}
+				// the body leaves
+				l := an.Effective(is.Body.List)
+				leaves := false
+				if len(l) > 0 {
+					switch x := l[len(l)-1].(type) {
+					case *ast.ReturnStmt:
+						leaves = true
+					case *ast.BranchStmt:
+						leaves = x.Tok == token.CONTINUE || x.Tok == token.BREAK || x.Tok == token.GOTO
+					}
+				}
+				if !leaves {
+					return true
+				}
+				var atoms func(e ast.Expr)
+				atoms = func(e ast.Expr) {
+					e = ast.Unparen(e)
+					be, ok := e.(*ast.BinaryExpr)
+					if !ok {
+						return
+					}
+					if be.Op == token.LOR {
+						atoms(be.X)
+						atoms(be.Y)
+						return
+					}
+					switch be.Op {
+					case token.LSS, token.LEQ, token.GTR, token.GEQ, token.NEQ:
+					default:
+						return
+					}
+					lenOf := func(x ast.Expr) string {
+						if call, ok := ast.Unparen(x).(*ast.CallExpr); ok && core.IsBuiltin(info, call, "len") && len(call.Args) == 1 {
+							return types.ExprString(ast.Unparen(call.Args[0]))
+						}
+						return ""
+					}
+					if t := lenOf(be.X); t != "" {
+						guards = append(guards, guard{is.Pos(), t, types.ExprString(ast.Unparen(be.Y))})
+					}
+					if t := lenOf(be.Y); t != "" {
+						guards = append(guards, guard{is.Pos(), t, types.ExprString(ast.Unparen(be.X))})
+					}
+				}
+				atoms(is.Cond)
+				return true
+			})
+			madeWith := map[string]string{} // local slice → text of the len argument's operand
+			ast.Inspect(f.Decl.Body, func(nd ast.Node) bool {
+				as, ok := nd.(*ast.AssignStmt)
+				if !ok || len(as.Lhs) != 1 || len(as.Rhs) != 1 {
+					return true
+				}
+				madeLen := func(e ast.Expr) string {
+					call, ok := ast.Unparen(e).(*ast.CallExpr)
+					if !ok || !core.IsBuiltin(info, call, "make") || len(call.Args) < 2 {
+						return ""
+					}
+					if lc, ok := ast.Unparen(call.Args[1]).(*ast.CallExpr); ok && core.IsBuiltin(info, lc, "len") && len(lc.Args) == 1 {
+						return types.ExprString(ast.Unparen(lc.Args[0]))
+					}
+					return ""
+				}
+				if t := madeLen(as.Rhs[0]); t != "" {
+					madeWith[types.ExprString(as.Lhs[0])] = t
+				}
+				// b := &T{Points: make(…, len(X))}
+				lit := ast.Unparen(as.Rhs[0])
+				if u, ok := lit.(*ast.UnaryExpr); ok && u.Op == token.AND {
+					lit = u.X
+				}
+				if cl, ok := lit.(*ast.CompositeLit); ok {
+					for _, el := range cl.Elts {
+						if kv, ok := el.(*ast.KeyValueExpr); ok {
+							if kid, ok := kv.Key.(*ast.Ident); ok {
+								if t := madeLen(kv.Value); t != "" {
+									madeWith[types.ExprString(as.Lhs[0])+"."+kid.Name] = t
+								}
+							}
+						}
+					}
+				}
+				return true
+			})
+			k := 0
+			ast.Inspect(f.Decl.Body, func(nd ast.Node) bool {
+				rs, ok := nd.(*ast.RangeStmt)
+				if !ok || rs.Key == nil {
+					return true
+				}
+				kid, ok := rs.Key.(*ast.Ident)
+				if !ok || kid.Name == "_" {
+					return true
+				}
+				kobj := info.Defs[kid]
+				if kobj == nil {
+					return true
+				}
+				if _, isMap := info.TypeOf(rs.X).Underlying().(*types.Map); isMap {
+					return true
+				}
+				aText := types.ExprString(ast.Unparen(rs.X))
+				seen := map[string]bool{}
+				ast.Inspect(rs.Body, func(m ast.Node) bool {
+					ix, ok := m.(*ast.IndexExpr)
+					if !ok {
+						return true
+					}
+					id, ok := ast.Unparen(ix.Index).(*ast.Ident)
+					if !ok || info.Uses[id] != kobj {
+						return true
+					}
+					bText := types.ExprString(ast.Unparen(ix.X))
+					if bText == aText || seen[bText] {
+						return true
+					}
+					switch info.TypeOf(ix.X).Underlying().(type) {
+					case *types.Slice, *types.Basic:
+					default:
+						return true // map, array, pointer to array
+					}
+					seen[bText] = true
+					n++
+					k++
+					c.Analysed(f)
+					proved := madeWith[bText] == aText
+					for _, g := range guards {
+						if g.pos < ix.Pos() && g.text == bText && (g.with == "len("+aText+")" || g.with == kid.Name || strings.HasPrefix(g.with, "len(")) {
+							proved = true
+						}
+					}
+					// the ranged list itself was derived from B: A := B[lo:hi] or A made with len(B)
+					if madeWith[aText] == bText {
+						proved = true
+					}
+					c.Check(proved, "C05.parallelindex", fmt.Sprintf("%s#%s[%s]", name, bText, kid.Name), ix.Pos(), "%s indexes %s with the position of a walk over %s and nothing on the way compares their lengths: an answer in which %s is shorter (a row with fewer values than columns, an annotation shorter than the header) is an index out of range in the goroutine that decodes the server's answers", name, bText, aText, bText)
+					return true
+				})
+				return true
+			})
+		}
+	}
+	c.Floor("C05.parallelindex", "parallel index sites in the decoders", n, 2)
+}
+
+// c05ScalarField (F128): what ResultToBufferedBatches stores as a field value is a scalar. A json.Number that no float64 holds
+// (1e309) must not stay a json.Number (its kind is string: first()/last() build a string reducer and dereference nil), an
+// array or object cell must not become a field (changeDetect compares field values with ==, which panics on a slice).
+func c05ScalarField(c *core.Ctx) {
+	c.Rule("C05.scalarfield", "A2: in edge.ResultToBufferedBatches the store of a cell into the fields of a point is preceded, on every path, by a switch on the dynamic type of the cell whose default arm leaves the function, and the error of json.Number.Float64 leads to a return: only float64, int64, uint64, string, bool and time.Time become field values")
+	fn := c.Need("C05.scalarfield", "edge", "", "ResultToBufferedBatches")
+	if fn == nil {
+		return
+	}
+	ep := c.P.Pkg("edge")
+	info := ep.TypesInfo
+	// the store fields[c] = value
+	var store *ast.AssignStmt
+	var valObj types.Object
+	ast.Inspect(fn.Decl.Body, func(nd ast.Node) bool {
+		as, ok := nd.(*ast.AssignStmt)
+		if !ok || len(as.Lhs) != 1 || len(as.Rhs) != 1 {
+			return true
+		}
+		ix, ok := ast.Unparen(as.Lhs[0]).(*ast.IndexExpr)
+		if !ok {
+			return true
+		}
+		if n := core.NamedOf(info.TypeOf(ix.X)); n == nil || n.Obj().Name() != "Fields" {
+			return true
+		}
+		if id, ok := ast.Unparen(as.Rhs[0]).(*ast.Ident); ok {
+			store, valObj = as, info.Uses[id]
+		}
+		return true
+	})
+	if store == nil || valObj == nil {
+		c.Undecided("C05.scalarfield", "ResultToBufferedBatches#store", fn.Decl.Pos(), "the store of a cell into the point's fields was not found")
+		return
+	}
+	// a type switch on the value, before the store, in the same block, with a default that returns
+	guarded := false
+	ast.Inspect(fn.Decl.Body, func(nd ast.Node) bool {
+		blk, ok := nd.(*ast.BlockStmt)
+		if !ok {
+			return true
+		}
+		si := -1
+		for i, st := range blk.List {
+			if st == ast.Stmt(store) {
+				si = i
+			}
+		}
+		if si < 0 {
+			return true
+		}
+		for _, st := range blk.List[:si] {
+			ts, ok := st.(*ast.TypeSwitchStmt)
+			if !ok {
+				continue
+			}
+			var x ast.Expr
+			switch a := ts.Assign.(type) {
+			case *ast.ExprStmt:
+				if ta, ok := ast.Unparen(a.X).(*ast.TypeAssertExpr); ok {
+					x = ta.X
+				}
+			case *ast.AssignStmt:
+				if ta, ok := ast.Unparen(a.Rhs[0]).(*ast.TypeAssertExpr); ok {
+					x = ta.X
+				}
+			}
+			id, ok := ast.Unparen(x).(*ast.Ident)
+			if !ok || info.Uses[id] != valObj {
+				continue
+			}
+			for _, cc := range ts.Body.List {
+				cl := cc.(*ast.CaseClause)
+				if cl.List != nil {
+					continue
+				}
+				l := an.Effective(cl.Body)
+				if len(l) > 0 {
+					if _, ok := l[len(l)-1].(*ast.ReturnStmt); ok {
+						guarded = true
+					}
+				}
+			}
+		}
+		return true
+	})
+	c.Check(guarded, "C05.scalarfield", "ResultToBufferedBatches#scalar", store.Pos(), "a cell of the server's answer becomes a field value without a switch on its dynamic type whose default leaves: an array or object cell reaches changeDetect's == (panic: comparing uncomparable type []interface {}), the task ends on one malformed answer")
+	// Float64's error
+	okNum, seen := false, false
+	ast.Inspect(fn.Decl.Body, func(nd ast.Node) bool {
+		as, ok := nd.(*ast.AssignStmt)
+		if !ok || len(as.Lhs) != 2 || len(as.Rhs) != 1 {
+			return true
+		}
+		call, ok := ast.Unparen(as.Rhs[0]).(*ast.CallExpr)
+		if !ok {
+			return true
+		}
+		if cal := core.Callee(info, call); cal == nil || cal.Name() != "Float64" || cal.Pkg() == nil || cal.Pkg().Path() != "encoding/json" {
+			return true
+		}
+		seen = true
+		eid, ok := as.Lhs[1].(*ast.Ident)
+		if !ok {
+			return true
+		}
+		eobj := info.Defs[eid]
+		if eobj == nil {
+			eobj = info.Uses[eid]
+		}
+		// if err != nil { return … }
+		ast.Inspect(fn.Decl.Body, func(m ast.Node) bool {
+			is, ok := m.(*ast.IfStmt)
+			if !ok || is.Pos() < as.Pos() {
+				return true
+			}
+			be, ok := ast.Unparen(is.Cond).(*ast.BinaryExpr)
+			if !ok || be.Op != token.NEQ {
+				return true
+			}
+			if id, ok := ast.Unparen(be.X).(*ast.Ident); ok && info.Uses[id] == eobj {
+				l := an.Effective(is.Body.List)
+				if len(l) > 0 {
+					if _, ok := l[len(l)-1].(*ast.ReturnStmt); ok {
+						okNum = true
+					}
+				}
+			}
+			return true
+		})
+		return true
+	})
+	c.Check(seen && okNum, "C05.scalarfield", "ResultToBufferedBatches#number", fn.Decl.Pos(), "a json.Number whose Float64() fails (1e309) is not refused: it stays a json.Number, whose kind is string — first() and last() build a string reducer for the field, every point fails to aggregate, and emitting the empty reducer dereferences nil: the task ends")
+}
+
+// c05Cron (F130): cronexpr.Parse accepts expressions its own Next cannot handle. (a) A field with a reversed range (22-2) parses
+// to an empty list of values and Next indexes it: newCronTicker must find that out itself — one Next call under a deferred
+// recover before it hands out a ticker. (b) Next answers the zero time when the schedule has no occurrence left: the ticker's
+// loop must test for it before it computes how long to wait, a negative wait fires at once and the node queries without pause.
+func c05Cron(c *core.Ctx, root *packages.Package, ruleA, ruleB string) {
+	info := root.TypesInfo
+	isNext := func(call *ast.CallExpr) bool {
+		cal := core.Callee(info, call)
+		return cal != nil && cal.Name() == "Next" && cal.Pkg() != nil && strings.HasSuffix(cal.Pkg().Path(), "cronexpr")
+	}
+	if ruleA != "" {
+		c.Rule(ruleA, "A2: newCronTicker calls the parsed expression's Next once inside a function whose deferred function recovers unconditionally, and returns an error when it panicked, before it returns a ticker: an expression cronexpr.Parse accepts but Next cannot evaluate (a reversed range leaves a field without values) is refused when the task starts instead of ending the daemon from the ticker's goroutine at the first tick and at every restart")
+		if fn := c.Need(ruleA, "", "", "newCronTicker"); fn != nil {
+			probed := false
+			ast.Inspect(fn.Decl.Body, func(nd ast.Node) bool {
+				lit, ok := nd.(*ast.FuncLit)
+				if !ok {
+					return true
+				}
+				calls, rec := false, false
+				for _, st := range lit.Body.List {
+					if ds, ok := st.(*ast.DeferStmt); ok {
+						if dl, ok := ast.Unparen(ds.Call.Fun).(*ast.FuncLit); ok {
+							if uncond, _ := recoverPlacement(info, dl.Body); uncond && !repanics(info, dl.Body) {
+								rec = true
+							}
+						}
+					}
+				}
+				ast.Inspect(lit.Body, func(m ast.Node) bool {
+					if call, ok := m.(*ast.CallExpr); ok && isNext(call) {
+						calls = true
+					}
+					return true
+				})
+				if calls && rec {
+					probed = true
+				}
+				return true
+			})
+			c.Check(probed, ruleA, "newCronTicker#probe", fn.Decl.Pos(), "newCronTicker hands out a ticker without having called Next under a recover: `0 22-2 * * *` parses, the task starts, and the first Next in the ticker's goroutine is an index out of range outside every recover — the daemon ends, and ends again at every restart while the task is enabled")
+		}
+	}
+	if ruleB != "" {
+		c.Rule(ruleB, "A2 (must-pass): in cronTicker.Start's loop the time returned by Next is tested with IsZero, and the loop left or parked, before it is used to compute the wait: a schedule without a further occurrence (0 0 30 2 *, an explicit year that is over) otherwise gives a negative wait that fires at once — the node queries InfluxDB back to back with bounds in year 1")
+		if fn := c.Need(ruleB, "", "cronTicker", "Start"); fn != nil {
+			good, seen := true, false
+			ast.Inspect(fn.Decl.Body, func(nd ast.Node) bool {
+				blk, ok := nd.(*ast.BlockStmt)
+				if !ok {
+					return true
+				}
+				for i, st := range blk.List {
+					as, ok := st.(*ast.AssignStmt)
+					if !ok || len(as.Lhs) != 1 || len(as.Rhs) != 1 {
+						continue
+					}
+					call, ok := ast.Unparen(as.Rhs[0]).(*ast.CallExpr)
+					if !ok || !isNext(call) {
+						continue
+					}
+					id, ok := as.Lhs[0].(*ast.Ident)
+					if !ok {
+						continue
+					}
+					obj := info.Defs[id]
+					if obj == nil {
+						obj = info.Uses[id]
+					}
+					seen = true
+					// the next statement that mentions the variable is `if next.IsZero() { … leave }`
+					tested := false
+					for _, nx := range blk.List[i+1:] {
+						mentions := false
+						ast.Inspect(nx, func(m ast.Node) bool {
+							if mid, ok := m.(*ast.Ident); ok && info.Uses[mid] == obj {
+								mentions = true
+							}
+							return true
+						})
+						if !mentions {
+							continue
+						}
+						if is, ok := nx.(*ast.IfStmt); ok {
+							if zc, ok := ast.Unparen(is.Cond).(*ast.CallExpr); ok {
+								if sel, ok := zc.Fun.(*ast.SelectorExpr); ok && sel.Sel.Name == "IsZero" {
+									if rid, ok := ast.Unparen(sel.X).(*ast.Ident); ok && info.Uses[rid] == obj {
+										l := an.Effective(is.Body.List)
+										if len(l) > 0 {
+											switch x := l[len(l)-1].(type) {
+											case *ast.ReturnStmt:
+												tested = true
+											case *ast.BranchStmt:
+												tested = x.Tok == token.BREAK || x.Tok == token.CONTINUE
+											}
+										}
+									}
+								}
+							}
+						}
+						break
+					}
+					if !tested {
+						good = false
+					}
+				}
+				return true
+			})
+			c.Check(seen && good, ruleB, "cronTicker.Start#no-occurrence", fn.Decl.Pos(), "cronTicker.Start uses the time returned by Next without testing it for the zero time first: when the schedule has no occurrence left the wait is negative, time.After fires at once and the loop ticks without pause — thousands of queries per second against InfluxDB with bounds in year 1")
+		}
+	}
+}
+
+// c07QueryCancel (F131): a batch node's stop closes n.closing and waits for doQuery to return. A request to the server that is
+// made in doQuery's own frame cannot be left: while it is outstanding neither closing nor aborting is looked at, the default
+// client has no timeout, and StopTask waits — holding the task master's lifecycle lock — for as long as the server stays silent.
+func c07QueryCancel(c *core.Ctx, root *packages.Package) {
+	c.Rule("C07.querycancel", "A2: in QueryNode.doQuery and FluxQueryNode.doQuery every request to the InfluxDB client (Query, QueryFluxResponse, QueryFlux) is made in a goroutine of its own, and doQuery waits for its answer in a select that also has arms for n.closing and n.aborting: stopping the node never waits for an answer that does not come")
+	info := root.TypesInfo
+	for _, recv := range []string{"QueryNode", "FluxQueryNode"} {
+		fn := c.Need("C07.querycancel", "", recv, "doQuery")
+		if fn == nil {
+			continue
+		}
+		c.Analysed(fn)
+		isReq := func(call *ast.CallExpr) bool {
+			cal := core.Callee(info, call)
+			if cal == nil || cal.Pkg() == nil || !strings.HasSuffix(cal.Pkg().Path(), "kapacitor/influxdb") {
+				return false
+			}
+			return cal.Name() == "Query" || cal.Name() == "QueryFluxResponse" || cal.Name() == "QueryFlux"
+		}
+		// requests outside a go literal
+		nReq, direct := 0, token.NoPos
+		var walk func(n ast.Node, inGo bool)
+		walk = func(n ast.Node, inGo bool) {
+			ast.Inspect(n, func(m ast.Node) bool {
+				switch x := m.(type) {
+				case *ast.GoStmt:
+					if lit, ok := ast.Unparen(x.Call.Fun).(*ast.FuncLit); ok {
+						walk(lit.Body, true)
+						return false
+					}
+				case *ast.CallExpr:
+					if isReq(x) {
+						nReq++
+						if !inGo {
+							direct = x.Pos()
+						}
+					}
+				}
+				return true
+			})
+		}
+		walk(fn.Decl.Body, false)
+		// a select with arms on closing and aborting besides a receive
+		selOK := false
+		ast.Inspect(fn.Decl.Body, func(nd ast.Node) bool {
+			ss, ok := nd.(*ast.SelectStmt)
+			if !ok {
+				return true
+			}
+			closing, aborting, other := false, false, false
+			for _, cc := range ss.Body.List {
+				cl := cc.(*ast.CommClause)
+				var rx ast.Expr
+				switch s := cl.Comm.(type) {
+				case *ast.ExprStmt:
+					if u, ok := ast.Unparen(s.X).(*ast.UnaryExpr); ok && u.Op == token.ARROW {
+						rx = u.X
+					}
+				case *ast.AssignStmt:
+					if u, ok := ast.Unparen(s.Rhs[0]).(*ast.UnaryExpr); ok && u.Op == token.ARROW {
+						rx = u.X
+					}
+				}
+				if rx == nil {
+					continue
+				}
+				switch {
+				case an.FieldSel(info, rx, recv, "closing"):
+					closing = true
+				case an.FieldSel(info, rx, recv, "aborting"):
+					aborting = true
+				default:
+					// a local channel (the answer), not the ticker
+					if id, ok := ast.Unparen(rx).(*ast.Ident); ok {
+						if _, isChan := info.TypeOf(id).Underlying().(*types.Chan); isChan {
+							if n := core.NamedOf(info.TypeOf(id).Underlying().(*types.Chan).Elem()); n != nil && n.Obj().Name() != "Time" {
+								other = true
+							}
+						}
+					}
+				}
+			}
+			if closing && aborting && other {
+				selOK = true
+			}
+			return true
+		})
+		c.Check(nReq > 0 && direct == token.NoPos && selOK, "C07.querycancel", recv+".doQuery", fn.Decl.Pos(), "%s.doQuery makes its request to the server in its own frame (or does not wait for the answer next to n.closing and n.aborting; requests %d, select with all three arms %v): while the request is outstanding the stop signal is not looked at — a server that never answers keeps StopTask waiting for ever with the lifecycle lock held, and no other task can be started or stopped", recv, nReq, selOK)
+	}
+}
